@@ -7,6 +7,7 @@ import subprocess
 import tempfile
 
 VERIF = os.path.dirname(os.path.dirname(os.path.abspath(__file__)))
+NEUTRAL_CAP = 12
 
 
 def _pname(patch):
@@ -39,6 +40,7 @@ def run(ctx, pid):
         pd = os.path.join(os.path.dirname(mp), "patch.diff")
         if pid in (m.get("quiet") or []) and os.path.exists(pd):
             neutral.append(pd)
+    neutral = neutral[:NEUTRAL_CAP]          # bounded cost per property; tools/replay_neutral.py runs the full matrix
     if not patches and not neutral:
         ctx.selftests.append({"status": "no seeded variants registered for this property"})
         return
